@@ -126,7 +126,7 @@ def run_property(prop, tier, seed, timeout, args, t_start):
     repo = frontend.Repo()
     reg = contracts.Registry()
     reg.load_dir(os.path.join(VERIF, "contracts"))
-    funcs = [q for q, c in reg.contracts.items() if prop in c.props and not c.trusted]
+    funcs = [q for q, c in reg.contracts.items() if prop in c.props and not c.trusted and not c.inline]
     if args.only:
         funcs = [q for q in funcs if args.only in q]
     plug = plugins.for_property(prop)
@@ -268,7 +268,12 @@ def run_property(prop, tier, seed, timeout, args, t_start):
                     recipes, found, rep = r["model"], True, out
         if not found and q and q in reg.contracts:
             c = reg.get(q)
-            out = harness("falsify", {"qualname": q, "scope": c.scope, "seed": seed,
+            import re as _re
+            m_ = _re.search(r"/((?:post|returns|no-raise|raises)[^/]*)$", bn)
+            want = m_.group(1) if m_ else None
+            if want and want.startswith("no-raise["):
+                want = want.split("@")[0]
+            out = harness("falsify", {"qualname": q, "scope": c.scope, "seed": seed, "clause": want,
                                       "budget": 3000 if tier == "quick" else 30000})
             info["falsifier"] = {k: out.get(k) for k in ("found", "tried", "note", "error")}
             if out.get("found"):
